@@ -6,7 +6,7 @@ use crate::xtypes::{
     type_object::TypeIdentifier,
     type_support::TypeSupport,
 };
-use alloc::{string::ToString, vec::Vec};
+use alloc::vec::Vec;
 
 type RepresentationIdentifier = [u8; 2];
 const CDR_BE: RepresentationIdentifier = [0x00, 0x00];
